@@ -22,6 +22,7 @@ class FuncReport:
         self.span = None
         self.sha = None
         self.trivial_frames = 0
+        self.synthetic = False
 
     @property
     def real(self):
@@ -71,6 +72,15 @@ def verify_all(reg, contracts, engine_cls=Engine, timeout_ms=10000, jobs=None, d
             rep.sha = sm.sha(fdef)
         except (KeyError, FileNotFoundError, SyntaxError) as ex:
             rep.status, rep.detail = "missing", str(ex)
+            if c.extra.get("must_exist"):
+                # the property requires this method to exist: its absence is a refuted obligation
+                import z3
+                from .engine import Obligation
+                rep.status = "ok"
+                rep.synthetic = True
+                rep.obligations = [Obligation(f"{c.module}:{c.qualname}#exists", "post", [], z3.BoolVal(False),
+                                              c.qualname, 0)]
+                allobls += rep.obligations
             continue
         eng = (c.extra.get("engine") or engine_cls)(reg)
         try:
